@@ -737,6 +737,10 @@ def _run_one(task):
                     count('model-unsupported'); continue
                 if 'OutOfFuel' in m:
                     count('model-out-of-fuel'); continue
+                if got == 'err ValueError' and m.startswith('ok') and len(m) > 1500:
+                    # model gap, stated in the trusted base: the interpreter (MPFR) refuses an absurd computed precision with ValueError,
+                    # the Lean evaluator has unbounded precision and returns a number with thousands of digits -- counted, not judged
+                    count('model-gap:huge-precision-refused-by-mpfr'); continue
                 if m != got and not (m == 'err Unbound' and got in ('err KeyError', 'err Unbound', 'err NameError')):   # the interpreter reports an unbound name as KeyError
                     # (the report keeps the LAST 3000 characters: the verdict goes last, the bulky parts first and clipped)
                     out['broken'].append(('correspondence', f"{opts.get('prop')}.eval-transformed",
